@@ -54,50 +54,51 @@ Theorem C20_client_json_agrees : forall out : string, client_json_path out = jso
 Proof. exact client_json_agrees. Qed.
 Print Assumptions C20_client_json_agrees.
 
-(* command line, client (from any directory) and direct pipeline, for ANY simulation function, any input and any
-   absolute normalised output path: same exit status, same files, same report - PROVIDED the simulator does not end
-   the run with a bare sys.exit() *)
-Theorem C20_entry_points_agree_partial :
+(* command line, client (from any directory) and direct pipeline, for ANY simulation function (success, exception or
+   bare sys.exit()), any input and any absolute normalised output path: same status (0 / non-zero resp. returns /
+   raises), same files, same report (command line after fix 3ff4cc0) *)
+Theorem C20_entry_points_agree :
   forall (run : string -> sim) cwd1 cwd2 cwd3 pkg1 pkg2 pkg3 inp1 inp2 inp3 (p : path) (text : string),
-  wf_abs (parse cwd1) = true -> wf_abs p = true -> run text <> SimAbort ->
+  wf_abs (parse cwd1) = true -> wf_abs p = true ->
   cli run cwd1 pkg1 inp1 (Some (to_str p)) text true = client run cwd2 pkg2 inp2 (to_str p) text
   /\ client run cwd2 pkg2 inp2 (to_str p) text = direct run cwd3 pkg3 [""; inp3; to_str p] text true.
 Proof. exact entry_points_agree. Qed.
-Print Assumptions C20_entry_points_agree_partial.
+Print Assumptions C20_entry_points_agree.
 
-(* ... otherwise the command line reports success (status 0) where the client raises.  FINDING, reproduced on the
-   implementation by tools/props/C20.py with the input 'Reservoir Model, 5' and no reservoir output file. *)
-Theorem C20_entry_points_agree_refuted :
+(* the command line before the fix (cli_pinned) reported success (status 0) where the client raises.  Witness input
+   'Reservoir Model, 5' without a reservoir output file (tools/props/C20.py SPECIAL, corpus/C20): a regression of the
+   fix is reported with that replay. *)
+Theorem C20_entry_points_agree_pinned_refuted :
   exists (run : string -> sim) (text : string), run text = SimAbort /\
-    o_exit (cli run "/w" "/pkg" "in.txt" (Some "/w/o.out") text true) = 0%Z /\
+    o_exit (cli_pinned run "/w" "/pkg" "in.txt" (Some "/w/o.out") text true) = 0%Z /\
     o_exit (client run "/w" "/pkg" "/w/in.txt" "/w/o.out" text) = 1%Z.
-Proof. exact entry_points_abort_counterexample. Qed.
-Print Assumptions C20_entry_points_agree_refuted.
+Proof. exact entry_points_pinned_counterexample. Qed.
+Print Assumptions C20_entry_points_agree_pinned_refuted.
 
-(* exit status: an exception in the simulation gives a non-zero status and no report; success gives status 0 and the
-   report text of [run] at the files named above; a missing output directory gives non-zero and no report *)
-Theorem C20_exit_partial :
+(* exit status: ANY failure of the simulation (exception or bare sys.exit()) gives a non-zero status and no report;
+   success gives status 0 and the report text of [run] at the files named above; a missing output directory gives
+   non-zero and no report *)
+Theorem C20_exit :
   forall (run : string -> sim) (cwd pkg inp : string) (out : option string) (text : string) (dir_ok : bool),
-  (run text = SimFail -> o_exit (cli run cwd pkg inp out text dir_ok) <> 0%Z
+  ((forall rep, run text <> SimOk rep) -> o_exit (cli run cwd pkg inp out text dir_ok) <> 0%Z
                          /\ o_files (cli run cwd pkg inp out text dir_ok) = None
                          /\ o_report (cli run cwd pkg inp out text dir_ok) = None)
   /\ (forall rep, run text = SimOk rep -> dir_ok = true ->
         o_exit (cli run cwd pkg inp out text dir_ok) = 0%Z
         /\ o_files (cli run cwd pkg inp out text dir_ok) = Some (main_files cwd pkg (cli_argv cwd inp out))
         /\ o_report (cli run cwd pkg inp out text dir_ok) = Some rep)
-  /\ (run text <> SimAbort -> dir_ok = false -> o_exit (cli run cwd pkg inp out text dir_ok) <> 0%Z
+  /\ (dir_ok = false -> o_exit (cli run cwd pkg inp out text dir_ok) <> 0%Z
                         /\ o_files (cli run cwd pkg inp out text dir_ok) = None).
 Proof. exact exit_status. Qed.
-Print Assumptions C20_exit_partial.
+Print Assumptions C20_exit.
 
-(* the clause "exits non-zero without writing a report when the simulation fails" is refuted for failures that the
-   simulator signals with a bare sys.exit(): status 0 and no report, whatever the arguments *)
-Theorem C20_exit_refuted :
+(* the command line before the fix: status 0 and no report for failures signalled with a bare sys.exit() *)
+Theorem C20_exit_pinned_refuted :
   exists (run : string -> sim) (text : string), run text = SimAbort /\
     forall cwd pkg inp out dir_ok,
-      o_exit (cli run cwd pkg inp out text dir_ok) = 0%Z /\ o_files (cli run cwd pkg inp out text dir_ok) = None.
-Proof. exact exit_status_counterexample. Qed.
-Print Assumptions C20_exit_refuted.
+      o_exit (cli_pinned run cwd pkg inp out text dir_ok) = 0%Z /\ o_files (cli_pinned run cwd pkg inp out text dir_ok) = None.
+Proof. exact exit_status_pinned_counterexample. Qed.
+Print Assumptions C20_exit_pinned_refuted.
 
 (* non-vacuity *)
 Example C20_example_paths :
@@ -121,7 +122,8 @@ Example C20_example_entry_points :
   o_exit (cli run "/w" "/pkg" "i" (Some "o.out") "ok" true) = 0%Z
   /\ o_report (cli run "/w" "/pkg" "i" (Some "o.out") "ok" true) = Some "report of ok"
   /\ o_exit (cli run "/w" "/pkg" "i" (Some "o.out") "bad" true) = 1%Z
-  /\ o_exit (cli run "/w" "/pkg" "i" (Some "nodir/o.out") "ok" false) = 1%Z.
+  /\ o_exit (cli run "/w" "/pkg" "i" (Some "nodir/o.out") "ok" false) = 1%Z
+  /\ o_exit (cli (fun _ => SimAbort) "/w" "/pkg" "i" (Some "o.out") "x" true) = 1%Z.
 Proof. vm_compute. repeat split. Qed.
 
 (* what the model says about GEOPHIRESv3.main() called directly with a RELATIVE or MISSING output argument (no theorem,
